@@ -121,8 +121,10 @@ if _z3 is not None:
     for _c in ("Gillespie3D", "GillespieGraph"):
         CASES += [_C07.apply_reaction_case(_c, "C03"), _C07.apply_diffusion_case(_c, "C03"),
                   _C07.reaction_prop_case(_c, "C03"), _C07.diffusion_prop_case(_c, "C03"), no_store_into_flagged_case(_c)]
+        CASES.append(_C07.compute_propensities_case(_c, "C03"))       # a flagged entry still diffuses out and reacts
     for _c in ("TauLeap3D", "TauLeapGraph"):
         CASES.append(no_store_into_flagged_case(_c))
+        CASES.append(_C07.compute_nevt_case(_c, "C03"))
     for _c in ("Euler3D", "EulerGraph"):
         CASES += [_C02.compute_dxdt_case(_c, "C03"), _C02.apply_dxdt_case(_c, "C03")]
     # the chemostat map reaches the engine in the layout of the state (cell-major): set-up contract of C14
